@@ -167,7 +167,7 @@ def run_read(case, ctx):
         return
     n_eq = n_near = 0
     for j in range(c):
-        col = np.asarray(las.curves[j].data)
+        col = np.asarray([c for c in list.__iter__(las.curves)][j].data)
         for i in range(r):
             tok, cl = rows[i][j], cls[i][j]
             ctx.count("cells_compared")
@@ -243,7 +243,7 @@ def written_ok(ctx, case, las, data, nv, kw, tag):
     if case["wrap"]:
         ctx.count("wrapped_cases")
     for j in range(c):
-        got = np.isnan(np.asarray(back.curves[j].data, dtype=float))
+        got = np.isnan(np.asarray([c for c in list.__iter__(back.curves)][j].data, dtype=float))
         want = np.isnan(np.array(data[j]))
         if not np.array_equal(got, want):
             ctx.violation("nan-mask-changed-by-roundtrip" + sfx, "curve %d NaN mask %s -> %s" % (j, want.tolist(), got.tolist()), detail)
